@@ -31,14 +31,33 @@ def run(ctx: Ctx) -> int:
     t_fp = ctx.pick(150, 900)
     from lib import e3_run
 
-    with cf.ProcessPoolExecutor(max_workers=ctx.par, initializer=e3_run.init, initargs=(known,)) as ex:
+    results = {}
+    ex = cf.ProcessPoolExecutor(max_workers=ctx.par, initializer=e3_run.init, initargs=(known,))
+    try:
         futs = {}
         for n in names:
-            tb = t_fp if "@C04:float" in n else t_bv
-            futs[ex.submit(e3_run.solve_named, n, tb, t_int)] = n
-        results = {}
-        for f in cf.as_completed(futs):
-            results[futs[f]] = f.result()
+            if "@C04:float" in n:
+                for seed in range(ctx.pick(4, 6)):  # portfolio over solver seeds: binary64 div+fma queries vary 10x in time
+                    futs[ex.submit(e3_run.solve_named, n, t_fp, t_int, seed)] = n
+            else:
+                futs[ex.submit(e3_run.solve_named, n, t_bv, t_int)] = n
+        pending = set(futs)
+        while pending:
+            done, pending = cf.wait(pending, return_when=cf.FIRST_COMPLETED)
+            for f in done:
+                n, r = futs[f], f.result()
+                if n not in results or (results[n]["result"] != "sat" and r["result"] in ("sat", "unsat")):
+                    results[n] = r
+            # portfolio members still running for an already decided query are not waited for
+            if pending and all(futs[f] in results and results[futs[f]]["result"] in ("sat", "unsat") for f in pending):
+                break
+    finally:
+        for p in list(getattr(ex, "_processes", {}).values()):
+            try:
+                p.kill()
+            except Exception:
+                pass
+        ex.shutdown(wait=False, cancel_futures=True)
     for n in names:
         r = results[n]
         role = f"finding:{r['region']}" if r.get("region") else "main"
